@@ -313,18 +313,18 @@ def _mk_elem(kind, dim):
 def gen_indices(shape):
     """all index tuples of length <= rank+1 over the kinds, valid for numpy"""
     rank = len(shape)
-    kinds = ["int", "neg", "slice", "slice2", "none", "ell", "ia1", "ia2", "ba1", "bool0"]
+    kinds = ["int", "neg", "slice", "slice2", "none", "ell", "ia1", "ia2", "ba1", "ba2", "bool0"]
     out = []
     for L in range(1, rank + 2):
         for ks in itertools.product(kinds, repeat=L):
             if ks.count("ell") > 1:
                 continue
-            if ks.count("bool0") > 1 or ("bool0" in ks and any(k in ("ia1", "ia2", "ba1", "int", "neg") for k in ks)):
+            if ks.count("bool0") > 1 or ("bool0" in ks and any(k in ("ia1", "ia2", "ba1", "ba2", "int", "neg") for k in ks)):
                 continue  # a boolean scalar combined with other advanced indices (arrays, integers) broadcasts with them: not enumerated
             consuming = [k for k in ks if k not in ("none", "ell", "bool0")]
-            if len(consuming) > rank:
+            if len(consuming) + ks.count("ba2") > rank:
                 continue
-            if ks.count("none") > 2 or sum(k in ("ia1", "ia2", "ba1") for k in ks) > 2:
+            if ks.count("none") > 2 or sum(k in ("ia1", "ia2", "ba1", "ba2") for k in ks) > 2:
                 continue
             # positions of consumed axes to build boolean masks of the right length
             elems = []
@@ -334,7 +334,7 @@ def gen_indices(shape):
             for i, k in enumerate(ks):
                 if k == "ell":
                     rest = [x for x in ks[i + 1 :] if x not in ("none", "bool0")]
-                    ax = rank - len(rest)
+                    ax = rank - len(rest) - rest.count("ba2")
                     elems.append(Ellipsis)
                     continue
                 if k == "none":
@@ -343,9 +343,19 @@ def gen_indices(shape):
                 if k == "bool0":
                     elems.append(True)
                     continue
-                if ax >= rank:
+                if ax >= rank or ax < 0:
                     ok = False
                     break
+                if k == "ba2":
+                    # a boolean mask over TWO axes (equivalent to the two index arrays mask.nonzero())
+                    if ax + 1 >= rank:
+                        ok = False
+                        break
+                    m = np.zeros((shape[ax], shape[ax + 1]), dtype=bool)
+                    m[0, 0] = m[-1, -1] = m[0, -1] = True
+                    elems.append(m)
+                    ax += 2
+                    continue
                 elems.append(_mk_elem(k, shape[ax]))
                 ax += 1
             if not ok:
@@ -367,11 +377,16 @@ def _expected_mapping(shape, ks, index):
     for i, k in enumerate(ks):
         if k == "ell":
             rest = [x for x in ks[i + 1 :] if x not in ("none", "bool0")]
-            for a_ in range(ax, rank - len(rest)):
+            nrest = len(rest) + rest.count("ba2")
+            for a_ in range(ax, rank - nrest):
                 src_kind[a_] = "slice"
-            ax = rank - len(rest)
+            ax = rank - nrest
             continue
         if k in ("none", "bool0"):
+            continue
+        if k == "ba2":
+            src_kind[ax] = src_kind[ax + 1] = "adv"
+            ax += 2
             continue
         src_kind[ax] = "slice" if k.startswith("slice") else ("int" if k in ("int", "neg") else "adv")
         ax += 1
@@ -415,11 +430,11 @@ def _getitem_case(shape, pattern, tier, tag):
             except IndexError:
                 continue
             n += 1
-            advpos = [i for i, k in enumerate(ks) if k in ("int", "neg", "ia1", "ia2", "ba1")]
-            empty_ell = "ell" in ks and len([k for k in ks if k not in ("none", "ell")]) == len(shape)
+            advpos = [i for i, k in enumerate(ks) if k in ("int", "neg", "ia1", "ia2", "ba1", "ba2")]
+            empty_ell = "ell" in ks and len([k for k in ks if k not in ("none", "ell")]) + ks.count("ba2") == len(shape)
             # residual known finding: a zero-length Ellipsis between two advanced indices
             excused_class = bool(empty_ell and advpos and advpos[0] < ks.index("ell") < advpos[-1]
-                                 and any(k in ("ia1", "ia2", "ba1") for k in ks))
+                                 and any(k in ("ia1", "ia2", "ba1", "ba2") for k in ks))
             try:
                 r = t[index if len(index) > 1 else index[0]]
             except Exception as e:
